@@ -66,7 +66,19 @@ type c20Write struct {
 	ok    bool
 }
 
+// sync-level tier (schedule explorer), present only in overlay builds (build tag verife2)
+var (
+	c20SyncTier   func(t *testing.T, w *explore.Worker, idx *int)
+	c20SyncReplay func(t *testing.T, c explore.Case) explore.Result
+)
+
 func runC20(t *testing.T, c explore.Case) (res explore.Result) {
+	if strings.HasPrefix(c.Unit, "sync;") {
+		if c20SyncReplay == nil {
+			return explore.Result{Viol: "HARNESS: sync tier not built"}
+		}
+		return c20SyncReplay(t, c)
+	}
 	p := kv(c.H)
 	lim := c20LimByName(p["lim"])
 	n, _ := strconv.Atoi(p["n"])
@@ -291,6 +303,13 @@ func TestC20(t *testing.T) {
 	w.SetRule("limiter (rate, burst) in {(1/s,1),(1/s,3),(10/s,2),(0.1/s,1)} x WaitToReply on/off x inbound floods of 0..6 (thorough: 0..12) queries of mixed kinds (ping, find_node, unknown method => error path, missing arguments => error path, get) from 1 or 3 sources arriving all at once / spaced half a token interval / spaced one token interval (thorough: also a quarter and two intervals, two more limiters (2/s,5) (1/s,2), a third outbound query, NumTries 2, write errors on writes 3 and 4) x 0..2 concurrent outbound queries to silent peers with rate-limiting options {default, NotFirst, NotAny, WaitOnRetries, NoWaitFirst} x NumTries {1,3} x context {no deadline, a deadline shorter than the wait for the next token} x scripted socket write error on write {none,1,2} (token refund path); the clock advances in quarter-token ticks to a horizon; oracle over the written-datagram timeline: every window of rate-limited datagrams (all r/e, every q send not exempted by its options) holds at most burst + rate x length; replies are immediate or never unless the node waits, then every response eventually leaves; no reply is sent twice; outbound queries return")
 	idx := 0
 	defer func() { w.AddStates(len(c20States)) }()
+	defer func() {
+		// after the grid, with what is left of the budget
+		sidx := 1000000
+		if c20SyncTier != nil {
+			c20SyncTier(t, w, &sidx)
+		}
+	}()
 	run := func(h []string) {
 		i := idx
 		idx++
